@@ -9,6 +9,11 @@ import EinoV.Proofs.C20Ends
 import EinoV.Proofs.C20Kahn
 import EinoV.Model.C20Wf
 import EinoV.Proofs.C20Wf
+import EinoV.Model.C20Nest
+import EinoV.Proofs.C20Nest
+import EinoV.Model.C20Keys
+import EinoV.Proofs.C20Keys
+import EinoV.Proofs.C20KeysTie
 import EinoV.Gen.FactsC20
 import EinoV.Expected.C20
 
@@ -532,6 +537,90 @@ theorem workflow_compile_deterministic_partial (chk : Bool) (d : WfDecl)
     d.lowerBy chk (replayOrder FactsC20.wfInputsReplayedInDeclaredOrder adv (d.nodes.length + 1)) = d.lower chk := by
   simp only [replayOrder, h, ↓reduceIte, lowerBy_declared, and_self]
 
+/-! ## graphs compiled as nodes are frozen -/
+
+/-- **nested_graphs_frozen.**  "After a successful Compile the graph can no longer be modified"
+    for the graphs a compiled graph contains: if the first Compile of a declared graph succeeds,
+    then every graph it was given with `AddGraphNode(key, child, WithGraphCompileOptions(cco))`
+    was compiled with `cco` successfully, the builder that compile left behind has the `compiled`
+    flag, and every later Add* call on it answers `ErrGraphCompiled` and changes nothing.
+    (`guard` / `child.guard` – what `Workflow.compile` answers before touching the graph – is
+    never a success.)  Applied to `child` in place of the parent the statement reaches the graphs
+    `child` contains, and so every nesting depth. -/
+theorem nested_graphs_frozen (im : Impl) (ord : Ord) (hv : ord.Valid)
+    (cmp : Cmp) (inT outT : Ty) (st : Option Nat) (ops : DOps) (re once : List Op) (guard : Option Outcome)
+    (co : COpts) (hok : Decl.first (srcEnv im ord) (.mk cmp inT outT st ops re once guard) co = .ok)
+    (hops : ops.all (fun o => !o.isCompile) = true) (hg : guard ≠ some .ok)
+    (key : Key) (child : Decl) (cco : COpts) (hs : DOps.hasSub key child cco ops)
+    (hcg : child.guard ≠ some .ok) :
+    Decl.first (srcEnv im ord) child cco = .ok ∧
+    (Decl.firstB (srcEnv im ord) child cco).1.compiled = true ∧
+    ∀ op : Op, op.isCompile = false →
+      stepK (srcEnv im ord) (Decl.firstB (srcEnv im ord) child cco).1 op =
+        ((Decl.firstB (srcEnv im ord) child cco).1, .compiled, none) := by
+  have hparent := attempt_ok (srcEnv im ord) _ (re ++ once) guard co _ hg
+    (by simpa only [Decl.first] using hok)
+  have hchild : Decl.first (srcEnv im ord) child cco = .ok := by
+    rcases build_sub (srcEnv im ord) srcFacts_guarded (srcEnv_inCtl im ord) hv key child cco ops
+      (Builder.new cmp inT outT st) hops rfl hs with h | h
+    · -- the AddGraphNode error would have been kept and returned by Compile
+      exfalso
+      have hne : (attempt (srcEnv im ord) (DOps.build (srcEnv im ord) ops (Builder.new cmp inT outT st)).1
+          (re ++ once) guard co (DOps.build (srcEnv im ord) ops (Builder.new cmp inT outT st)).2).2 ≠ .ok := by
+        unfold attempt
+        split
+        · simp
+        · rename_i hn; exact absurd hn h
+      exact hne (by simpa only [Decl.first] using hok)
+    · have := hparent.2.1 _ h
+      cases hc : Decl.first (srcEnv im ord) child cco <;> simp_all [Outcome.isOk]
+  have hfz : (Decl.firstB (srcEnv im ord) child cco).1.compiled = true ∧
+      (Decl.firstB (srcEnv im ord) child cco).1.buildError = none := by
+    rw [Decl.first_eq] at hchild
+    cases child with
+    | mk c i o s cops cre conce cguard =>
+      simp only [Decl.firstB] at hchild ⊢
+      have := attempt_ok (srcEnv im ord) _ (cre ++ conce) cguard cco _ (by simpa [Decl.guard] using hcg) hchild
+      exact ⟨this.2.2.1, this.2.2.2⟩
+  exact ⟨hchild, hfz.1, fun op hop =>
+    stepK_compiled (srcEnv im ord) srcFacts_guarded (srcEnv_inCtl im ord) _ hfz.2 hfz.1 op hop⟩
+
+/-! ## nodes with WithInputKey / WithOutputKey -/
+
+/-- the two source facts of the keyed model -/
+def srcKFacts : KFacts := ⟨FactsC20.mapHelperNilSafe, FactsC20.compileChecksOwnTypes⟩
+
+/-- Source fact tie: `forMapInput` / `forMapOutput` accept a nil helper, and `compile` refuses a
+    node whose own type is unknown. -/
+theorem key_facts_match : srcKFacts = Expected.C20.kfacts := by decide
+
+/-- **keyed_calls_never_panic.**  "With an error and never a panic" for graphs whose nodes carry
+    `WithInputKey` / `WithOutputKey`: no Add* call and no Compile, in any state, in any order,
+    ends in a panic.  (A keyed pass-through node shows `map[string]any` while its own type – and
+    its generic helper – may still be unknown; the work list only ever asks such a node for the
+    map side of its helper, and Compile refuses it.) -/
+theorem keyed_calls_never_panic (im : Impl) (ord : Ord) (x : XB) (xo : XOp) :
+    (stepX srcKFacts srcFacts im ord x xo).2.1 ≠ .panic := by
+  have h := key_facts_match
+  exact stepX_no_panic srcKFacts (by rw [h]; rfl) (by rw [h]; rfl) srcFacts im ord x xo
+
+/-- **rejects_keyed_node_without_own_type.**  "Pass-through nodes whose type cannot be inferred"
+    when a key option hides the missing type: a node with `WithInputKey` / `WithOutputKey` whose
+    own type was never inferred (no data predecessor, no data successor, both sides keyed,
+    control-only edges) makes Compile answer with an error, and the builder stays as it was. -/
+theorem rejects_keyed_node_without_own_type (ord : Ord) (x : XB) (o : COpts) (h : x.keyedUntyped = true) :
+    ∃ k, compileX srcKFacts srcFacts ord x o = (x, .fresh k, none) ∨
+         compileX srcKFacts srcFacts ord x o = (x, .stored k, none) :=
+  compileX_rejects_keyedUntyped srcKFacts (by rw [key_facts_match]; rfl) srcFacts ord x o h
+
+/-- **keyed_model_extends_builder.**  Without key options the keyed model is the builder model:
+    same outcomes, same runners, same builder – every theorem above about `run` / `step` speaks
+    about the calls of the keyed model too. -/
+theorem keyed_model_extends_builder (im : Impl) (ord : Ord) (mt : Ty) (b : Builder) (ops : List Op) :
+    runX srcKFacts srcFacts im ord (XB.ofB b mt) (ops.map XOp.plain) =
+      (XB.ofB (run srcFacts im ord b ops).1 mt, (run srcFacts im ord b ops).2.1, (run srcFacts im ord b ops).2.2) :=
+  runX_plain srcKFacts srcFacts (by decide) im ord mt ops b
+
 /-! ## non-vacuity and negation witnesses -/
 
 def exImpl : Impl := [(.conc 3, 0)]
@@ -650,5 +739,72 @@ theorem workflow_compile_panics_on_undeclared_branch_end :
     (d.lower false).compiles (exEnv true) [copts, copts] = [.panic, .panic] ∧
     (d.lower true).compiles (exEnv true) [copts] = [.fresh .branchUnknownEnd] := by
   decide
+
+/-! ### key options -/
+
+def xpt (k : Key) (ik ok : Bool) : XOp :=
+  .node { key := k, passthrough := true, inTy := .any, outTy := .any, pre := none, post := none, nodeKeyOpt := false } ik ok
+def xlam (k : Key) (i o : Ty) : XOp := .plain (lam k i o)
+def xedge (s e : Key) : XOp := .plain (.edge s e false false none)
+/-- Graph[map[string]any, map[string]any] -/
+def xb0 : XB := XB.ofB (Builder.new .graph (.conc 5) (.conc 5) none) (.conc 5)
+
+/-- a pass-through node with an input key and a data successor is typed by that successor and the
+    graph compiles; the same node as a dead end (data predecessor only), with both keys on the
+    spine, or without data predecessor under an output key is refused by Compile – every time –
+    with `cannot be inferred` -/
+example :
+    (runX Expected.C20.kfacts Expected.C20.facts exImpl Ord.id xb0
+      [xpt "p" true false, xlam "a" (.conc 0) (.conc 5), xedge START "p", xedge "p" "a", xedge "a" END,
+       .plain (.compile copts)]).2.1 = [.ok, .ok, .ok, .ok, .ok, .ok] ∧
+    (runX Expected.C20.kfacts Expected.C20.facts exImpl Ord.id xb0
+      [xlam "a" (.conc 5) (.conc 5), xedge START "a", xedge "a" END, xpt "p" true false, xedge START "p",
+       .plain (.compile copts), .plain (.compile copts)]).2.1
+        = [.ok, .ok, .ok, .ok, .ok, .fresh .uninferred, .fresh .uninferred] ∧
+    (runX Expected.C20.kfacts Expected.C20.facts exImpl Ord.id xb0
+      [xpt "p" true true, xedge START "p", xedge "p" END, .plain (.compile copts)]).2.1
+        = [.ok, .ok, .ok, .fresh .uninferred] ∧
+    (runX Expected.C20.kfacts Expected.C20.facts exImpl Ord.id xb0
+      [xlam "a" (.conc 5) (.conc 5), xedge START "a", xedge "a" END, xpt "p" false true, xedge "p" "a",
+       .plain (.compile copts)]).2.1 = [.ok, .ok, .ok, .ok, .ok, .fresh .uninferred] := by decide
+
+/-- With `forMapInput` / `forMapOutput` dereferencing their receiver (the unrepaired source) an
+    edge next to a still untyped keyed pass-through node makes AddEdge panic:
+    `keyed_calls_never_panic` is false for that value of the fact. -/
+theorem add_edge_panics_on_untyped_keyed_passthrough :
+    let K : KFacts := { Expected.C20.kfacts with helperNilSafe := false }
+    (runX K Expected.C20.facts exImpl Ord.id xb0 [xpt "p1" false true, xpt "p2" false false, xedge "p1" "p2"]).2.1
+      = [.ok, .ok, .panic] ∧
+    (runX K Expected.C20.facts exImpl Ord.id xb0 [xpt "p1" false false, xpt "p2" true false, xedge "p1" "p2"]).2.1
+      = [.ok, .ok, .panic] ∧
+    (runX Expected.C20.kfacts Expected.C20.facts exImpl Ord.id xb0
+      [xpt "p1" false true, xpt "p2" false false, xedge "p1" "p2"]).2.1 = [.ok, .ok, .ok] ∧
+    (runX Expected.C20.kfacts Expected.C20.facts exImpl Ord.id xb0
+      [xpt "p1" false false, xpt "p2" true false, xedge "p1" "p2"]).2.1 = [.ok, .ok, .ok] := by
+  decide
+
+/-- Without the own-type check in compile and with the dereferencing helpers (the unrepaired
+    source), START → p (both key options) → END passes every check and Compile panics in
+    `compileIfNeeded`, on every attempt; with the check it is an error. -/
+theorem compile_panics_on_both_keys_without_own_type_check :
+    let ops := [xpt "p" true true, xedge START "p", xedge "p" END, .plain (.compile copts), .plain (.compile copts)]
+    (runX { helperNilSafe := false, compileChecksOwnTypes := false } Expected.C20.facts exImpl Ord.id xb0 ops).2.1
+      = [.ok, .ok, .ok, .panic, .panic] ∧
+    (runX Expected.C20.kfacts Expected.C20.facts exImpl Ord.id xb0 ops).2.1
+      = [.ok, .ok, .ok, .fresh .uninferred, .fresh .uninferred] := by
+  decide
+
+/-- a graph used as a node: compiled by its parent, frozen – `nested_graphs_frozen` is not vacuous -/
+example :
+    let inner : Decl := .mk .graph (.conc 0) (.conc 0) none
+      (.ofList [lam "a" (.conc 0) (.conc 0), .edge START "a" false false none, .edge "a" END false false none]) [] [] none
+    let outer : Decl := .mk .graph (.conc 0) (.conc 0) none
+      (.sub "g" inner copts (.ofList [.edge START "g" false false none, .edge "g" END false false none])) [] [] none
+    Decl.first (exEnv true) outer copts = .ok ∧
+    (Decl.firstB (exEnv true) inner copts).1.compiled = true ∧
+    modOutcome (exEnv true) (Decl.firstB (exEnv true) inner copts).1 (lam "late" (.conc 0) (.conc 0)) = .compiled ∧
+    modOutcome (exEnv true) (Decl.firstB (exEnv true) inner copts).1 (.edge START "a" false false none) = .compiled ∧
+    Decl.again (exEnv true) (fun _ => false) [] outer copts = .ok ∧
+    Decl.again (exEnv true) (fun p => p == ["g"]) [] outer copts = .compiled := by decide
 
 end EinoV.C20
